@@ -203,6 +203,12 @@ func (t *Queue[T]) Poll(waitIfEmpty bool) T {
 			// immediately return the value if the pending timeouts are supposed to be ignored
 			if t.shutdownFlags.HasBits(IgnorePendingTimeouts) {
 				timeutil.CleanupTimer(timer)
+
+				// an element that was canceled in the meantime is never returned
+				if polledElement.Value.isCanceled() {
+					continue
+				}
+
 				return polledElement.Value.Value
 			}
 
@@ -215,6 +221,11 @@ func (t *Queue[T]) Poll(waitIfEmpty bool) T {
 
 			// return the result after the time is reached
 			case <-timer.C:
+				// select picks randomly if the element was also canceled: a canceled element is never returned
+				if polledElement.Value.isCanceled() {
+					continue
+				}
+
 				return polledElement.Value.Value
 			}
 
@@ -225,6 +236,11 @@ func (t *Queue[T]) Poll(waitIfEmpty bool) T {
 
 		// return the result after the time is reached
 		case <-timer.C:
+			// select picks randomly if the element was also canceled: a canceled element is never returned
+			if polledElement.Value.isCanceled() {
+				continue
+			}
+
 			return polledElement.Value.Value
 		}
 	}
@@ -253,6 +269,16 @@ type QueueElement[T any] struct {
 	timedQueue *Queue[T]
 	cancel     chan byte
 	rawElem    *generalheap.HeapElement[HeapKey, *QueueElement[T]]
+}
+
+// isCanceled returns true if the element was canceled.
+func (timedQueueElement *QueueElement[T]) isCanceled() bool {
+	select {
+	case <-timedQueueElement.cancel:
+		return true
+	default:
+		return false
+	}
 }
 
 // Cancel removed the given element from the queue and cancels its execution.
